@@ -116,3 +116,46 @@ mod tests {
         assert_eq!(sent.byte_position(2), 6);
     }
 }
+
+#[cfg(feature = "verif")]
+impl Sentence {
+    pub const fn verif_from_parts(
+        input: String,
+        chars: Vec<char>,
+        c2b: Vec<usize>,
+        cinfos: Vec<CharInfo>,
+        groupable: Vec<usize>,
+    ) -> Self {
+        Self {
+            input,
+            chars,
+            c2b,
+            cinfos,
+            groupable,
+        }
+    }
+
+    pub fn verif_compute_basic(&mut self) {
+        self.compute_basic()
+    }
+
+    pub fn verif_compute_categories(&mut self, char_prop: &CharProperty) {
+        self.compute_categories(char_prop)
+    }
+
+    pub fn verif_compute_groupable(&mut self) {
+        self.compute_groupable()
+    }
+
+    pub fn verif_c2b(&self) -> &[usize] {
+        &self.c2b
+    }
+
+    pub fn verif_cinfos(&self) -> &[CharInfo] {
+        &self.cinfos
+    }
+
+    pub fn verif_groupable(&self) -> &[usize] {
+        &self.groupable
+    }
+}
